@@ -116,6 +116,12 @@ def gen_arg(rng, name: str, ann: str, default):
         return timedelta(hours=1, seconds=5)
     if "tuple" in a and ("size" in lname or "position" in lname):
         return ("1cm", "2cm")
+    if lname == "family":
+        return rng.choice(["paragraph", "text", "table-cell", "graphic", "section", "table-row"])
+    if "element" in a.lower() and "str" in a and rng.random() < 0.5:
+        from odfdo import Paragraph
+
+        return Paragraph(rng.choice(["element body", "two  spaces"]))      # the documented "str or element" form
     if "str" in a or default is None or isinstance(default, str):
         if "color" in lname:
             return rng.choice(["#ff0000", "red"])
@@ -164,6 +170,12 @@ def c14n(xml: str) -> bytes:
     return etree.tostring(root[0], method="c14n")
 
 
+# constructor arguments that share a name with a property but are documented as something else, or that only act together
+# with another argument (each checked in the source)
+ARG_BY_DESIGN = {("Cell", "currency"), ("Cell", "text"), ("Cell", "value"), ("Cell", "cell_type"), ("Reference", "ref_format"), ("Table", "print_ranges"),
+                 ("Table", "protection_key"), ("VarSet", "display"), ("VarSet", "text"), ("Annotation", "parent"), ("Style", "area"),
+                 ("IndexTitle", "title_text_style")}
+
 # properties whose value is the position of the element in its tree, by definition
 CONTEXTUAL = {"parent", "root", "document_body", "is_bound", "clone", "children", "tail", "text_recursive", "x", "y", "tracked_changes"}
 
@@ -178,6 +190,43 @@ def _show(v) -> str:
     if isinstance(v, dict):
         return "{" + ",".join(f"{k}:{_show(v[k])}" for k in sorted(v, key=str)[:8]) + "}"
     return repr(v)[:200]
+
+
+NOT_PLAIN = {"tag", "tail", "text", "text_content", "repeated", "value", "formula", "type", "clone", "parent", "root", "children"}
+
+
+def stale_after_set(cls, xml: str, rng) -> list:
+    """Every settable string property: read it, assign the value another instance of the class carries, then the value read on
+    the same object must be the value read from its serialisation parsed afresh (no answer kept from before the assignment)."""
+    from odfdo import Element
+
+    out = []
+    try:
+        other, _kw = build_instance(cls, random.Random(rng.random()))
+    except Exception:  # noqa: BLE001
+        return out
+    if other is None:
+        return out
+    for n, m in inspect.getmembers(cls, lambda m: isinstance(m, property)):
+        if n.startswith("_") or m.fset is None or n in NOT_PLAIN or n in CONTEXTUAL:
+            continue
+        try:
+            new = getattr(other, n)
+            obj = Element.from_tag(xml)
+            old = getattr(obj, n)            # the read that may leave something behind
+        except Exception:  # noqa: BLE001
+            continue
+        if not isinstance(new, str) or not new or not isinstance(old, str) or new == old:
+            continue
+        try:
+            setattr(obj, n, new)
+            direct = getattr(obj, n)
+            again = getattr(Element.from_tag(obj.serialize()), n)
+        except Exception:  # noqa: BLE001 - a refused value is not this clause's business
+            continue
+        if direct != again:
+            out.append({"name": n, "was": old[:40], "set": new[:40], "read_on_object": repr(direct)[:60], "read_after_reparse": repr(again)[:60]})
+    return out
 
 
 def context_reads(cls, xml: str, alone, rng) -> list:
@@ -233,7 +282,9 @@ def record(cname: str, seed: int) -> dict:
         for k, v in kwargs.items():
             # (strings and booleans are judged through the generic properties below, with their codec; 0 and 1 are
             # the defaults of counters and levels and may legitimately read back as None)
-            if k in pnames and isinstance(v, int) and not isinstance(v, bool) and v >= 2:
+            # (the arguments of Style apply to some families only - documented; they are judged by the sibling clause)
+            strarg = isinstance(v, str) and v not in ("", "true", "false") and (cname, k) not in ARG_BY_DESIGN and cname != "Style"
+            if k in pnames and ((isinstance(v, int) and not isinstance(v, bool) and v >= 2) or strarg):
                 try:
                     got = getattr(obj, k)
                 except Exception as ex:  # noqa: BLE001
@@ -296,6 +347,7 @@ def record(cname: str, seed: int) -> dict:
                     entry["after_set"] = "exc:" + type(ex).__name__
             props.append(entry)
         rec["props"] = props
+        rec["stale"] = stale_after_set(cls, xml, rng)
         rec["context"] = context_reads(cls, xml, back, rng)
     except Exception as ex:  # noqa: BLE001
         rec["exc"] = f"{type(ex).__name__}: {ex}"[:120]
